@@ -11,7 +11,7 @@ use std::str::FromStr;
 use std::sync::atomic::{AtomicU64, Ordering};
 use std::sync::Arc;
 
-pub const COUNTERS: &[&str] = &["moves_round_tripped", "squares_round_tripped", "strings_parsed_as_move", "strings_parsed_as_square", "move_parses_ok", "square_parses_ok", "strings_with_non_ascii", "max_length", "long_move_texts", "long_square_texts", "code_point_texts", "padded_texts"];
+pub const COUNTERS: &[&str] = &["moves_round_tripped", "squares_round_tripped", "strings_parsed_as_move", "strings_parsed_as_square", "move_parses_ok", "square_parses_ok", "strings_with_non_ascii", "max_length", "long_move_texts", "long_square_texts", "code_point_texts", "padded_texts", "promotion_tail_texts", "wrapped_texts"];
 
 pub const ALPHABET: &[&str] = &["a", "b", "c", "d", "e", "f", "g", "h", "1", "2", "3", "4", "5", "6", "7", "8", "q", "r", "n", "i", "9", "0", "Q", " ", "é", "€", "😀", "x", "-", "B", "\n", "\r", "ű", "ı"];
 /// Suffix alphabet of the long-text sweep: the trie alphabet plus "truncation aliases" — 2-, 3- and
@@ -98,7 +98,7 @@ fn round_trips(run: &Run) {
     }
 }
 
-pub const RULE: &str = "all 20480 move values and all 64 squares: rendering = source, destination, optional lower-case promotion letter, and parses back to the identical value; every string of length <= L (L = 5 quick, 6 thorough) over a 34-symbol alphabet {a-h, 1-8, q r n i 9 0 Q B x - space, LF, CR, the 2/3/4-byte characters e-acute, euro sign, an emoji, and two 2-byte characters whose low byte is 'q' and '1'} walked as a trie (every prefix is a case), plus every well-formed 4-character move text followed by every suffix of up to 2 (thorough 3) symbols over that alphabet extended by 14 more symbols (2/3/4-byte characters whose low byte equals r, n, b, a, h, 8, q, 4; tab, =, +, #) and every square text followed by every suffix of up to 3 (4) symbols: every one of the 1 112 064 Unicode scalar values substituted for and inserted before every character of five well-formed texts; five texts padded with each of 4 fill characters to EVERY length 0..=1100 and 2^k +- 12 (k = 11..20) bytes and closed by each of 8 final characters: no panic in ChessMove::from_str / Square::from_str, and Ok(v) implies v.to_string() is a prefix of the input. distinct_nontrivial = strings on which at least one of the two parsers succeeded";
+pub const RULE: &str = "all 20480 move values and all 64 squares: rendering = source, destination, optional lower-case promotion letter, and parses back to the identical value; every string of length <= L (L = 5 quick, 6 thorough) over a 34-symbol alphabet {a-h, 1-8, q r n i 9 0 Q B x - space, LF, CR, the 2/3/4-byte characters e-acute, euro sign, an emoji, and two 2-byte characters whose low byte is 'q' and '1'} walked as a trie (every prefix is a case), plus every well-formed 4-character move text followed by every suffix of up to 2 (thorough 3) symbols over that alphabet extended by 14 more symbols (2/3/4-byte characters whose low byte equals r, n, b, a, h, 8, q, 4; tab, =, +, #) and every square text followed by every suffix of up to 3 (4) symbols: every one of the 1 112 064 Unicode scalar values substituted for and inserted before every character of five well-formed texts; every promotion-rank move text followed by every tail of up to 3 symbols over a 58-symbol alphabet; five texts wrapped in every pair of ASCII characters (one before, one after); five texts padded with each of 4 fill characters to EVERY length 0..=1100 and 2^k +- 12 (k = 11..20) bytes and closed by each of 8 final characters: no panic in ChessMove::from_str / Square::from_str, and Ok(v) implies v.to_string() is a prefix of the input. distinct_nontrivial = strings on which at least one of the two parsers succeeded";
 
 pub fn run(tier: Tier) -> i32 {
     let run = Arc::new(Run::new("C13", tier, COUNTERS));
@@ -211,6 +211,56 @@ pub fn run(tier: Tier) -> i32 {
         })
         .sum();
     run.add("code_point_texts", cp_count);
+    // promotion texts with longer tails: every move from the 7th / 2nd rank to the last rank x every tail of up
+    // to 3 symbols (a line break or a quote FOLLOWED by more text changes nothing about the prefix rule)
+    let tails3: Vec<String> = {
+        let alpha: Vec<&str> = ALPHABET.iter().chain(SUFFIX_EXTRA.iter()).copied().chain(["\"", "'", "(", ")", "[", "]", "!", "?", ";", ","]).collect();
+        let mut out = vec![];
+        for a in alpha.iter() {
+            for b in alpha.iter() {
+                for c in alpha.iter() {
+                    out.push(format!("{a}{b}{c}"));
+                }
+            }
+        }
+        out
+    };
+    let promo_moves: Vec<String> = (0..8i8).flat_map(|f| [-1i8, 0, 1].into_iter().filter(move |d| (0..8).contains(&(f + d))).flat_map(move |d| [(6i8, 7i8), (1, 0)].into_iter().map(move |(r1, r2)| RMove::new(sq(f, r1), sq(f + d, r2), None).uci()))).collect();
+    let tail_count: u64 = promo_moves
+        .par_iter()
+        .map(|m| {
+            let mut k = 0u64;
+            for t in tails3.iter() {
+                if run.has_violation() {
+                    break;
+                }
+                judge(&run, &format!("{m}{t}"), &ok_m, &ok_s);
+                k += 1;
+            }
+            k
+        })
+        .sum();
+    run.add("promotion_tail_texts", tail_count);
+    // wrapped texts: one character before AND one after a well-formed text (quotes, brackets, any ASCII pair)
+    let wrap_count: u64 = (0..128u32)
+        .into_par_iter()
+        .map(|c1| {
+            let mut k = 0u64;
+            for c2 in 0..128u32 {
+                for base in ["e2e4", "e7e8q", "a1h8", "e4", "h7g8n"] {
+                    if run.has_violation() {
+                        return k;
+                    }
+                    let t = format!("{}{}{}", char::from_u32(c1).unwrap(), base, char::from_u32(c2).unwrap());
+                    judge(&run, &t, &ok_m, &ok_s);
+                    k += 1;
+                }
+            }
+            k
+        })
+        .sum();
+    run.add("wrapped_texts", wrap_count);
+    let cp_count = cp_count + tail_count + wrap_count;
     // padded texts of EVERY length up to 1100 bytes and around 2^k (k <= 20): a length kept in a narrow
     // integer, or compared modulo 2^8 / 2^16, must not change the verdict
     let mut pads: Vec<usize> = (0..=1100usize).collect();
